@@ -1143,6 +1143,27 @@ func (env *SpecEnv) callExpr(e *SExpr) SVal {
 	case "concat":
 		x, y := env.termOrLoad(env.eval(e.Args[0])), env.termOrLoad(env.eval(e.Args[1]))
 		return SVal{T: mk(app("concat", x, y), sortBV(x.T.Bits+y.T.Bits))}
+	case "rangeidx":
+		// the hidden index of the "for ... range" loop whose invariant is being evaluated
+		if env.fr == nil || env.atBlock == nil {
+			env.fail("rangeidx() is only meaningful in a loop invariant")
+		}
+		for _, ins := range env.atBlock.Instrs {
+			phi, ok := ins.(*ssa.Phi)
+			if !ok {
+				break
+			}
+			if phi.Comment == "rangeindex" {
+				if env.sub != nil {
+					if x, ok := env.sub[phi]; ok {
+						return SVal{T: x.T, GoT: types.Typ[types.Int]}
+					}
+				}
+				return SVal{T: env.vc.operand(env.fr, env.st, phi).T, GoT: types.Typ[types.Int]}
+			}
+		}
+		env.fail("rangeidx(): this loop is not a range loop")
+		return SVal{}
 	case "low64":
 		// low 64 bits of a word
 		x := env.termOrLoad(env.eval(e.Args[0]))
